@@ -26,7 +26,7 @@ def pinned : Tables :=
     sizeCap := ⟨413, .falcon⟩
     encBomb := ⟨413, .falcon⟩
     encCorrupt := ⟨400, .falcon⟩
-    coerceStatus := some 500 }
+    coerce := fun _ => some 500 }
 
 /-- `/exchange` with an IPC stream that has no batch: unhandled `StopIteration` → 500 with a JSON body -/
 def zeroBatchExchange : Req := ⟨.exchange, .producer, .parseFail .stopIteration, .correct, .none, .within, .ok, .valid, .ok⟩
@@ -50,7 +50,7 @@ def undecodable : Req := ⟨.unary, .unary, .valid, .correct, .corrupt, .within,
 example : ¬ BodyOk (respondWith pinned undecodable).status (respondWith pinned undecodable).arrow := by decide
 
 /-- an /exchange input batch that does not fit the input schema: 200 + marker although `process()` never ran -/
-def badInput : Req := ⟨.exchange, .exchanger, .badParams, .correct, .none, .within, .ok, .valid, .ok⟩
+def badInput : Req := ⟨.exchange, .exchanger, .badParams .mismatch, .correct, .none, .within, .ok, .valid, .ok⟩
 example : (respondWith pinned badInput) = ⟨200, true, true, false⟩ := by rfl
 example : ¬ MarkerOk badInput (respondWith pinned badInput).marker := by decide
 
